@@ -220,6 +220,9 @@ func linearHelpers(c *Ctx) map[*ssa.Function]string {
 					out[f] = "walks a URL component whose size grows with the input"
 				}
 			}
+			if copiesReceiverField(f) {
+				out[f] = "copies a URL component whose size grows with the input"
+			}
 		}
 		for round := 0; round < 3; round++ {
 			for _, f := range c.P.ModFns {
@@ -246,6 +249,62 @@ func linearHelpers(c *Ctx) map[*ssa.Function]string {
 		}
 		return out
 	}).(map[*ssa.Function]string)
+}
+
+// copiesReceiverField: the function copies (a reslice of) a slice held in a field of its receiver with the builtins
+// append(dst, field...) / copy(dst, field), or joins it — work proportional to the component's size.
+func copiesReceiverField(f *ssa.Function) bool {
+	if len(f.Params) == 0 {
+		return false
+	}
+	recv := ssa.Value(f.Params[0])
+	var fromRecv func(v ssa.Value, depth int) bool
+	fromRecv = func(v ssa.Value, depth int) bool {
+		if depth > 3 {
+			return false
+		}
+		switch x := v.(type) {
+		case *ssa.Slice:
+			return fromRecv(x.X, depth+1)
+		case *ssa.UnOp:
+			if x.Op != token.MUL {
+				return false
+			}
+			fa, ok := x.X.(*ssa.FieldAddr)
+			if !ok || fa.X != recv {
+				return false
+			}
+			_, isSlice := x.Type().Underlying().(*types.Slice)
+			return isSlice
+		}
+		return false
+	}
+	for _, b := range f.Blocks {
+		for _, ins := range b.Instrs {
+			call, ok := ins.(*ssa.Call)
+			if !ok {
+				continue
+			}
+			if bi, ok := call.Common().Value.(*ssa.Builtin); ok {
+				switch bi.Name() {
+				case "append":
+					// append(dst, field...) where dst is not the field itself growing by a fresh element
+					if len(call.Common().Args) == 2 && fromRecv(call.Common().Args[1], 0) {
+						return true
+					}
+				case "copy":
+					if len(call.Common().Args) == 2 && fromRecv(call.Common().Args[1], 0) {
+						return true
+					}
+				}
+				continue
+			}
+			if cl := call.Common().StaticCallee(); cl != nil && cl.String() == "strings.Join" && fromRecv(call.Common().Args[0], 0) {
+				return true
+			}
+		}
+	}
+	return false
 }
 
 // loopWalksReceiverField: the loop indexes (or takes the length of) a slice loaded from a field of the receiver.
